@@ -121,6 +121,11 @@ func recoverAndReplay(dir string, prevH int64, prevHash, newHash []byte, blk []*
 	return "ok-replay", ""
 }
 
+// Prop selects which property's violations are reported: "C08" (default) every unrecoverable crash point;
+// "C10": only crash points OUTSIDE Commit whose replay returns different validator updates than the
+// uncrashed node (the reported validator set must survive a crash and replay of the block).
+var Prop = "C08"
+
 func Run(seed uint64, tier, work, driver string, replay []string) *common.Result {
 	res := common.NewResult("commit", seed, tier)
 	res.Rule = "every durable write of every Commit (verif hook) and random points outside Commit of generated histories are crash points: " +
@@ -202,6 +207,21 @@ func Run(seed uint64, tier, work, driver string, replay []string) *common.Result
 				lines = append(lines, fmt.Sprintf("crash labels=%s k=%d", strings.Join(labels, ","), sn.k))
 				real = append(real, outcome)
 				meta = append(meta, fmt.Sprintf("history %d block %d crash %s (k=%d of %d): %s %s", hi, prevH+1, sn.where, sn.k, len(labels), outcome, detail))
+				if Prop == "C10" {
+					if sn.k == 0 && outcome == "mismatch" && strings.Contains(detail, "EndBlock answers") {
+						dup := false
+						for _, v := range res.Violations {
+							if v.Kind == "valset-after-crash-replay" {
+								dup = true
+							}
+						}
+						if !dup {
+							res.Violations = append(res.Violations, common.Violation{Property: "C10", Kind: "valset-after-crash-replay",
+								Detail: meta[len(meta)-1], Ops: append(s.ReplayLines(), fmt.Sprintf("# crash point: %s, then restart and replay of the block", sn.where))})
+						}
+					}
+					continue
+				}
 				if outcome != "ok-replay" && outcome != "ok-ahead" {
 					kind := "crash-unsafe-midcommit"
 					if sn.k == 0 || sn.k >= len(labels)-1 {
@@ -232,7 +252,7 @@ func Run(seed uint64, tier, work, driver string, replay []string) *common.Result
 	}
 	res.DistinctNontrivial = len(distinct)
 	// Lean model prediction for every crash point
-	if len(lines) > 0 {
+	if len(lines) > 0 && Prop != "C10" {
 		mout, err := common.RunDriver(driver, "commit", lines)
 		if err != nil {
 			res.Error = err.Error()
